@@ -181,6 +181,36 @@ fn typed_word(e: &ParseError) -> &'static str {
 const IRREGULAR: &[u16] = &[];
 
 
+
+/// What the display of SVCB parameters iterates: every raw parameter, typed through the public
+/// parse function of its key (falling back to the raw form as AllValues::parse_any does).
+fn svc_obs(params: &domain::rdata::svcb::SvcParams<&[u8]>) -> String {
+    use domain::rdata::svcb::value::*;
+    let mut v: Vec<String> = vec![];
+    for p in params.iter_raw() {
+        let key = p.key().to_int();
+        let val: &[u8] = p.as_slice();
+        let unk = || format!("u{}:{}", key, hex(val));
+        let mut ps = Parser::from_ref(val);
+        let s = match key {
+            0 => match Mandatory::parse(&mut ps) { Ok(x) => format!("m{}", x.iter().map(|k| k.to_int().to_string()).collect::<Vec<_>>().join(".")), Err(_) => unk() },
+            1 => match Alpn::parse(&mut ps) { Ok(x) => format!("a{}", x.iter().map(|i| hex(i)).collect::<Vec<_>>().join(".")), Err(_) => unk() },
+            2 => "n".to_string(),
+            3 => match Port::parse(&mut ps) { Ok(x) => format!("p{}", x.port()), Err(_) => unk() },
+            4 => match Ipv4Hint::parse(&mut ps) { Ok(x) => format!("4{}", x.iter().map(|a| hex(&a.octets())).collect::<Vec<_>>().join(".")), Err(_) => unk() },
+            5 => match Ech::parse(&mut ps) { Ok(x) => format!("e{}", hex(x.as_slice())), Err(_) => unk() },
+            6 => match Ipv6Hint::parse(&mut ps) { Ok(x) => format!("6{}", x.iter().map(|a| hex(&a.octets())).collect::<Vec<_>>().join(".")), Err(_) => unk() },
+            7 => match DohPath::parse(&mut ps) { Ok(x) => format!("d{}", hex(x.as_slice())), Err(_) => unk() },
+            8 => "o".to_string(),
+            9 => match TlsSupportedGroups::parse(&mut ps) { Ok(x) => format!("g{}", x.iter().map(|g| g.to_string()).collect::<Vec<_>>().join(".")), Err(_) => unk() },
+            _ => unk(),
+        };
+        v.push(s);
+        if v.len() > 70_000 { break; }
+    }
+    if v.is_empty() { "-".to_string() } else { v.join(",") }
+}
+
 /// Control-flow skeleton of the dig-style printer's output.
 fn dig_skeleton(text: &str) -> String {
     let mut out: Vec<String> = vec![];
@@ -316,6 +346,28 @@ fn obs_ops(bytes: &[u8], ops: &str) -> String {
                     }
                 }
                 "G" => match msg.get_last_additional::<AllRecordData<_, _>>() { Some(r) => format!("g:{}", r.rtype().to_int()), None => "g:none".to_string() },
+                "V" => {
+                    let mut v = vec![];
+                    for item in msg.iter() {
+                        if let Ok((r, _)) = item {
+                            let t = r.rtype().to_int();
+                            if ![16u16, 47, 50, 64, 65].contains(&t) { v.push("-".to_string()); continue; }
+                            match r.to_any_record::<AllRecordData<_, _>>() {
+                                Err(_) => v.push("e".to_string()),
+                                Ok(rec) => v.push(match rec.data() {
+                                    AllRecordData::Nsec(n) => format!("B{}", n.types().iter().map(|x| x.to_int().to_string()).collect::<Vec<_>>().join(".")),
+                                    AllRecordData::Nsec3(n) => format!("B{}", n.types().iter().map(|x| x.to_int().to_string()).collect::<Vec<_>>().join(".")),
+                                    AllRecordData::Svcb(x) => format!("S{}", svc_obs(x.params())),
+                                    AllRecordData::Https(x) => format!("S{}", svc_obs(x.params())),
+                                    AllRecordData::Txt(x) => format!("T{}", x.iter().map(|c| hex(c)).collect::<Vec<_>>().join(".")),
+                                    _ => "?".to_string(),
+                                }),
+                            }
+                        }
+                        if v.len() > 200_000 { break; }
+                    }
+                    format!("v:{}", if v.is_empty() { "-".to_string() } else { v.join(" ") })
+                }
                 "P" => format!("p:{}", dig_skeleton(&format!("{}", msg.for_slice_ref().display_dig_style()))),
                 _ => "badop".to_string(),
             };
@@ -330,7 +382,7 @@ fn gen_ops(r: &mut Rng) -> String {
     let mut live = 0u64;
     let mut v: Vec<String> = vec![];
     for k in 0..n {
-        let c = if k < 2 { r.below(4) } else { r.below(28) };
+        let c = if k < 2 { r.below(4) } else { r.below(30) };
         let idx = if live == 0 { 0 } else if r.chance(1, 12) { live + r.below(2) } else { r.below(live) };
         let s = match c {
             0 => { live += 1; "Q".to_string() }
@@ -353,7 +405,8 @@ fn gen_ops(r: &mut Rng) -> String {
             23 | 24 => format!("L{}_{}", idx, *r.pick(&[0u32, 65537, 65536, 1, 5, 6, 15, 41])),
             25 => "K".to_string(),
             26 => "G".to_string(),
-            _ => "P".to_string(),
+            27 => "P".to_string(),
+            _ => "V".to_string(),
         };
         v.push(s);
     }
@@ -1498,6 +1551,15 @@ fn real_main() {
         *idx += 1;
         if !out.wants(*idx) { return; }
         oracle_msg(out, m, &query, kind);
+        if !t2 && (kind == "rdatafocus" || kind == "optfocus") && *idx % 2 == 0 && m.len() <= 1000 {
+            // typed data, display walk, typed options and the dig skeleton for every other focus message
+            let ops = "t,V,O,P";
+            let c = format!("ops {} {}", hex(m), ops);
+            out.begin(&c);
+            let o = obs_ops(m, ops);
+            out.check(o != "Panic", "panic_op_sequence", &c, "a sequence of read-side calls panicked");
+            out.case(&c, &o, true, "ops_focus");
+        }
         if !t2 || m.len() > 1000 { return; }
         let s = scan(m);
         // name parsing at structure positions and a few random ones
